@@ -7,6 +7,7 @@ package main
 import (
 	"bufio"
 	"bytes"
+	"encoding/binary"
 	"fmt"
 	"math"
 	"reflect"
@@ -352,6 +353,21 @@ func genMAL(c *ctx) {
 			mut = append(mut, refVarint(big)...)
 			mut = append(mut, 1, 2, 3)
 			c.emit(T("mal-file", ty, H(mut), T("tag", A("declared-length-not-backed"))))
+		}
+		if codec == "snappy" && len(w.writes) >= 5 {
+			// the snappy block itself declares its decoded length (a uvarint in front of the elements): a few hundred bytes
+			// must not make the reader allocate what a damaged declaration says
+			payload := w.writes[3]
+			_, hl := binary.Uvarint(payload)
+			for _, big := range []uint64{1 << 24, 1 << 28, 1<<31 - 1, 0xec9c00e5, 1<<32 - 1} {
+				p2 := append(binary.AppendUvarint(nil, big), payload[hl:]...)
+				mut := append([]byte(nil), w.writes[0]...)
+				mut = append(mut, w.writes[1]...)
+				mut = append(mut, refVarint(int64(len(p2)))...)
+				mut = append(mut, p2...)
+				mut = append(mut, w.writes[4]...)
+				c.emit(T("mal-file", ty, H(mut), T("tag", A("snappy-declared-length"))))
+			}
 		}
 		for k := 0; k < 4; k++ {
 			c.emit(T("mal-file", ty, H(file[:c.rng.Intn(len(file))]), T("tag", A("truncate"))))
